@@ -23,7 +23,8 @@ META = {
         'row.get), cells joined by ",".  (D3) date-time denotation: the writer emits isoformat() of the value itself and a zone name justified for that instant by timezone_name (clauses shared with C17.D2/D3: fast path before the zero-offset shortcut, scan guarded by offset equality at that instant, no remembered zone).  Also: XStr payload text is hex digits / one-line standard base64 (XStr.data_to_string); SortableDict.items() conformance (shared with C16.D5).  Not decided: "an independent reader recovers the same grid" as an execution; '
         'numeric payload fidelity.'
         ' Also (D1): membership / lookup of a number in a table of non-finite floats is modelled (== membership excludes NaN).'
-        ' Also (D1): unit-less quantities may hold non-finite values; isinstance(x, float) narrows number kinds per branch; new shared helpers are read at their call sites.'),
+        ' Also (D1): unit-less quantities may hold non-finite values; isinstance(x, float) narrows number kinds per branch; new shared helpers are read at their call sites.'
+        ' Also: encode/decode with pure codecs is folded, so generated escape tables are read.'),
     'rule_text': 'obligations = kinds x versions (inclusion in the spec language), code-point classes x spec-legality, '
                  'layout facts',
     'trusted_base': ['spec/zinc_spec.json transcribes the published grammar; spec/lexforms.json the CPython lexical forms'],
